@@ -49,7 +49,7 @@ from pathlib import Path
 
 from harness.lib import LEAN, REPO
 from harness.translate import flow
-from harness.translate.flow import Flow, conj, fold, fold_where, ifexp_leaves, plain, simplify, text
+from harness.translate.flow import Flow, conj, fold, fold_where, plain, simplify, text
 
 PROPS = ["C09", "C18"]
 OUT = LEAN / "PyttbModel" / "Generated" / "CpAlsFormulas.lean"
